@@ -599,6 +599,7 @@ func c16Reach(n int, eff []uint64, l0, out uint64) [][]uint64 {
 type c16Level struct {
 	N         int      `json:"gpus"`
 	Opts      string   `json:"opts"`       // all | lite | one : which (ctx,batch,parallel) combinations run this level
+	MinBlocks int      `json:"min_blocks"` // model shapes with fewer blocks skip this level
 	MaxBlocks int      `json:"max_blocks"` // model shapes with more blocks skip this level
 	Profiles  []string `json:"profiles"`   // nil = all
 	Outputs   []string `json:"outputs"`    // nil = all
@@ -609,7 +610,7 @@ type c16Level struct {
 	KCross    int      `json:"k_cross"` // thresholds with <=KCross layers computed without overhead and/or minimum; -1 none
 	Eps       []int64  `json:"eps"`
 	Libs      []string `json:"libs"`
-	NumGPU    string   `json:"num_gpu"`   // all | core
+	NumGPU    string   `json:"num_gpu"`   // all: {-1,0,1,B,B+1,999} (thorough also 2,B-1) | six: the first list | core: {-1,1,B,999}
 	MinPats   []string `json:"min_pats"`  // zero | big | small | alt
 	Overs     []uint64 `json:"overheads"` // nil = all
 	Vector    string   `json:"vector"`    // product | pattern
@@ -648,7 +649,7 @@ func c16MakePlan(thorough bool) c16Plan {
 		p.Levels = []c16Level{
 			{N: 1, Opts: "all", MaxBlocks: 5, Vision: "some", Proj: "all", Sums: "subsets", K: c16AllK, KCross: 1, Eps: c16Eps3, Libs: cmc, NumGPU: "all", MinPats: zb, Vector: "product"},
 			{N: 2, Opts: "one", MaxBlocks: 3, Vision: "some", Proj: "all", Sums: "reach", KCross: 0, Eps: c16Eps3, Libs: cm, NumGPU: "all", MinPats: zb, Vector: "product"},
-			{N: 2, Opts: "one", MaxBlocks: 5, Vision: "none", Proj: "nofile", Sums: "reach", KCross: -1, Eps: c16Eps3, Libs: cm, NumGPU: "core", MinPats: []string{"zero"}, Vector: "product"},
+			{N: 2, Opts: "one", MinBlocks: 4, MaxBlocks: 5, Vision: "none", Proj: "nofile", Sums: "reach", KCross: -1, Eps: c16Eps3, Libs: cm, NumGPU: "core", MinPats: []string{"zero"}, Vector: "product"},
 			{N: 3, Opts: "one", MaxBlocks: 3, Profiles: ug, Outputs: ns, Vision: "none", Proj: "nofile", Sums: "reach", KCross: -1, Eps: c16Eps3, Libs: cm, NumGPU: "core", MinPats: []string{"zero"}, Vector: "product"},
 			{N: 4, Opts: "one", MaxBlocks: 3, Profiles: []string{"uniform"}, Outputs: []string{"small"}, Vision: "none", Proj: "nofile", Sums: "subsets", K: 1, KCross: -1, Eps: c16Eps3, Libs: []string{"cuda"}, NumGPU: "core", MinPats: []string{"zero"}, Vector: "product"},
 		}
@@ -663,14 +664,15 @@ func c16MakePlan(thorough bool) c16Plan {
 		{Arch: "gemma3", Blocks: 7, Profile: "uniform", Output: "small"},
 		{Arch: "gemma3", Blocks: 7, Profile: "uniform", Output: "none", Vision: true},
 	}
-	all4 := []string{"zero", "big", "small", "alt"}
+	zbs := []string{"zero", "big", "small"}
 	core := []uint64{0, c16OvMid}
+	nsb := []string{"none", "small", "big"}
 	p.Levels = []c16Level{
-		{N: 1, Opts: "all", MaxBlocks: 8, Vision: "all", Proj: "all", Sums: "subsets", K: c16AllK, KCross: 1, Eps: c16Eps3, Libs: cmc, NumGPU: "all", MinPats: all4, Vector: "product"},
-		{N: 2, Opts: "lite", MaxBlocks: 8, Vision: "all", Proj: "all", Sums: "reach", KCross: 0, Eps: c16Eps3, Libs: cm, NumGPU: "all", MinPats: []string{"zero", "big", "alt"}, Overs: core, Vector: "product"},
+		{N: 1, Opts: "all", MaxBlocks: 8, Vision: "all", Proj: "all", Sums: "subsets", K: c16AllK, KCross: 1, Eps: c16Eps3, Libs: cmc, NumGPU: "all", MinPats: zbs, Vector: "product"},
+		{N: 2, Opts: "lite", MaxBlocks: 8, Vision: "all", Proj: "all", Sums: "reach", KCross: 0, Eps: c16Eps3, Libs: cm, NumGPU: "six", MinPats: []string{"zero", "big", "alt"}, Overs: core, Vector: "product"},
 		{N: 2, Opts: "all", MaxBlocks: 3, Vision: "some", Proj: "all", Sums: "reach", KCross: 0, Eps: c16Eps3, Libs: cmc, NumGPU: "core", MinPats: []string{"small"}, Overs: []uint64{c16OvSml}, Vector: "product"},
-		{N: 3, Opts: "one", MaxBlocks: 5, Vision: "none", Proj: "nofile", Sums: "reach", KCross: -1, Eps: c16Eps3, Libs: cm, NumGPU: "core", MinPats: []string{"zero"}, Overs: core, Vector: "product"},
-		{N: 3, Opts: "one", MaxBlocks: 3, Vision: "some", Proj: "all", Sums: "reach", KCross: -1, Eps: c16Eps3, Libs: cm, NumGPU: "core", MinPats: []string{"alt"}, Overs: []uint64{c16OvMid}, Vector: "product"},
+		{N: 3, Opts: "one", MaxBlocks: 5, Outputs: nsb, Vision: "none", Proj: "nofile", Sums: "reach", KCross: -1, Eps: c16Eps3, Libs: cm, NumGPU: "core", MinPats: []string{"zero"}, Overs: core, Vector: "product"},
+		{N: 3, Opts: "one", MaxBlocks: 3, Vision: "some", Proj: "nofile", Sums: "reach", KCross: -1, Eps: c16Eps3, Libs: cm, NumGPU: "core", MinPats: []string{"alt"}, Overs: []uint64{c16OvMid}, Vector: "product"},
 		{N: 4, Opts: "one", MaxBlocks: 3, Profiles: ug, Outputs: []string{"small"}, Vision: "none", Proj: "nofile", Sums: "reach", KCross: -1, Eps: c16Eps3, Libs: cm, NumGPU: "core", MinPats: []string{"zero"}, Overs: []uint64{c16OvMid}, Vector: "product"},
 		{N: 6, Opts: "one", MaxBlocks: 8, Profiles: ug, Vision: "none", Proj: "nofile", Sums: "subsets", K: 2, KCross: -1, Eps: c16Eps3, Libs: cm, NumGPU: "core", MinPats: zb, Overs: core, Vector: "pattern"},
 		{N: 8, Opts: "one", MaxBlocks: 8, Profiles: ug, Vision: "none", Proj: "nofile", Sums: "subsets", K: 2, KCross: -1, Eps: c16Eps3, Libs: cm, NumGPU: "core", MinPats: zb, Overs: core, Vector: "pattern"},
@@ -680,7 +682,14 @@ func c16MakePlan(thorough bool) c16Plan {
 
 func (p *c16Plan) shapes() []c16Shape {
 	var out []c16Shape
+	extraDone := false
 	for _, b := range p.Blocks { // simplest first
+		if b > 3 && !extraDone {
+			// the few extra shapes (other arch, 7-8 blocks) run before the big block of 5-block shapes so that
+			// a time budget, if it ever bites, cuts the most redundant part of the list
+			out = append(out, p.Extra...)
+			extraDone = true
+		}
 		for _, prof := range p.Profiles {
 			if b < 2 && prof != "uniform" {
 				continue // the profiles coincide below two blocks
@@ -692,7 +701,10 @@ func (p *c16Plan) shapes() []c16Shape {
 			}
 		}
 	}
-	return append(out, p.Extra...)
+	if !extraDone {
+		out = append(out, p.Extra...)
+	}
+	return out
 }
 
 func c16In(xs []string, x string) bool {
@@ -761,7 +773,7 @@ func c16NumGPUs(kind string, blocks int) []int {
 	if kind == "core" {
 		return c16Dedup([]int{-1, 1, blocks, 999})
 	}
-	if evid.Thorough() {
+	if evid.Thorough() && kind == "all" {
 		return c16Dedup([]int{-1, 0, 1, 2, blocks - 1, blocks, blocks + 1, 999})
 	}
 	return c16Dedup([]int{-1, 0, 1, blocks, blocks + 1, 999})
@@ -790,7 +802,7 @@ func (l *c16Level) applies(g *c16Group) bool {
 		return false
 	}
 	s := &g.Shape
-	if s.Blocks > l.MaxBlocks || !c16In(l.Profiles, s.Profile) || !c16In(l.Outputs, s.Output) {
+	if s.Blocks < l.MinBlocks || s.Blocks > l.MaxBlocks || !c16In(l.Profiles, s.Profile) || !c16In(l.Outputs, s.Output) {
 		return false
 	}
 	if s.Vision {
@@ -865,6 +877,7 @@ type c16Stats struct {
 	evals, nontrivial, fit, partial, full, tight, dropped, capped int64
 	byN                                                          [9]int64
 	byLevel                                                      [16]int64
+	dupSlices                                                    int64
 }
 
 func c16CPUms() int64 {
@@ -894,6 +907,7 @@ func c16Group1(g *c16Group, plan *c16Plan, sub *evid.Run, dry bool) {
 	b2 := make([]discover.GpuInfo, 0, 8)
 
 	curLevel := 0
+	seenSlice := map[string]bool{}
 	// samples: the first case and the first non-trivial case with the most GPUs, of about a dozen groups spread over the whole list
 	sampling := g.Of > 0 && g.Idx%max(1, g.Of/12) == 0
 	sampled := false
@@ -1018,6 +1032,14 @@ func c16Group1(g *c16Group, plan *c16Plan, sub *evid.Run, dry bool) {
 					sets[p] = c16FreeSet(&cp, g.Overhead, mins[p], zs, sums, rp, k, kc, lv.Eps)
 				}
 				for _, ng := range c16NumGPUs(lv.NumGPU, blocks) {
+					// two levels must never enumerate the same (gpus, library, minimum pattern, num_gpu) slice of a group:
+					// that is what keeps all enumerated tuples pairwise distinct
+					slice := fmt.Sprintf("%d|%s|%s|%d", n, lib, mp, ng)
+					if seenSlice[slice] {
+						st.dupSlices++
+						continue
+					}
+					seenSlice[slice] = true
 					if sub.Expired() {
 						sub.NotExhaustive(fmt.Sprintf("time budget reached inside group %+v level gpus=%d", *g, n))
 						c16Flush(sub, &st)
@@ -1045,6 +1067,9 @@ func c16Flush(sub *evid.Run, st *c16Stats) {
 	sub.Add("cases_a_gpu_filled_to_within_1_byte", st.tight)
 	sub.Add("cases_stopped_by_num_gpu", st.capped)
 	sub.Add("groups", 1)
+	if st.dupSlices > 0 {
+		sub.Add("overlapping_level_slices_skipped", st.dupSlices)
+	}
 	for n, c := range st.byN {
 		if c > 0 {
 			sub.Add(fmt.Sprintf("cases_with_%d_gpus", n), c)
@@ -1177,17 +1202,25 @@ func ZZVerifC16() {
 	}
 
 	groups := plan.groups()
+	only := os.Getenv("VERIF_C16_ONLY") // debugging aid: run only the groups whose JSON contains this text
 	var items []string
 	if !dry {
 		for _, sg := range c16SelfGroups(thorough) { // long single items first
 			b, _ := json.Marshal(&sg)
-			items = append(items, string(b))
+			if only == "" || strings.Contains(string(b), only) {
+				items = append(items, string(b))
+			}
 		}
 	}
 	for i := range groups {
 		groups[i].Idx, groups[i].Of = i, len(groups)
 		b, _ := json.Marshal(&groups[i])
-		items = append(items, string(b))
+		if only == "" || strings.Contains(string(b), only) {
+			items = append(items, string(b))
+		}
+	}
+	if only != "" {
+		r.NotExhaustive(fmt.Sprintf("VERIF_C16_ONLY=%q: only %d of the groups were run", only, len(items)))
 	}
 
 	r.Rule("Exhaustive cartesian enumeration, simplest model first, of: model shape (arch, block count, layer-size profile, output layer kind, in-model vision tower) x " +
